@@ -13,6 +13,7 @@ pub struct CutReader<'a> {
 
 impl<'a> CutReader<'a> {
     pub fn new(data: &'a [u8], cuts: &'a [usize]) -> Self {
+        assert!(cuts.windows(2).all(|w| w[0] <= w[1]), "CutReader: cut positions must be sorted");
         CutReader { data, pos: 0, cuts, reads: 0, reads_at_eof: 0 }
     }
 }
@@ -27,12 +28,12 @@ impl<'a> Read for CutReader<'a> {
             }
             return Ok(0);
         }
+        // the first cut after the current position (cuts are sorted): binary search, a linear scan made one
+        // bytewise delivery of a 1 MiB frame quadratic
         let mut end = self.data.len();
-        for &c in self.cuts {
-            if c > self.pos {
-                end = end.min(c);
-                break;
-            }
+        let i = self.cuts.partition_point(|&c| c <= self.pos);
+        if let Some(&c) = self.cuts.get(i) {
+            end = end.min(c);
         }
         let n = buf.len().min(end - self.pos);
         buf[..n].copy_from_slice(&self.data[self.pos..self.pos + n]);
